@@ -297,7 +297,7 @@ func init() {
 	exploreExtra["writeswallow"] = func(p *Prog) {
 		c := NewCtx(p, "X", "quick")
 		c.quiet = true
-		ruleWriteSwallow(c, "R-WRITE-SWALLOW", p.ModulePkgs())
+		ruleWriteSwallow(c, "R-WRITE-SWALLOW", p.ModulePkgs(), 0)
 		n := 0
 		for _, o := range c.Obls {
 			n++
